@@ -4,3 +4,4 @@ import ZixModel.Properties.C05
 import ZixModel.Properties.C16
 import ZixModel.Properties.C17
 import ZixModel.Properties.C13
+import ZixModel.Properties.C03
